@@ -54,6 +54,10 @@ def run(ctx):
     elif ts.distinct != sl + 1:
         raise vf.Infra("suite trace: consumed %d of %d lines" % (ts.distinct - 1, sl))
     rep.traces += 1
+    # rolling sink: "the multiset of lines equals the multiset of events" along the witness behaviours of Rolling.tla
+    # (writers parked between loading the file and writing to it while one, two and four rotations pass)
+    from checks import rolling_common
+    rolling_common.run(ctx, "C03", lite="witness", rep=rep)
     rep.extra["suite_trace_events_validated"] = sl
     rep.extra["trace_events_validated"] = nlines
     rep.exhaustive = False
@@ -65,7 +69,9 @@ def run(ctx):
                 "get/put/use, sink write start/end with backing-array identity, ordered by a sequence number drawn inside the "
                 "hooks) are validated by TLC against Trace_SyncPath.tla; 100 gated reproductions of the model's "
                 "counterexample schedule; the pool trace of the repository's own test suite (built with the verif tag, default "
-                "recorder) is validated against the same trace specification.  Non-trivial = recorded runs + gated rounds." % (
+                "recorder) is validated against the same trace specification; runs with calls that panic inside a user-supplied "
+                "encoder and are recovered (pooled buffers must come back empty); the witness behaviours of Rolling.tla replayed "
+                "on the real rolling appender (every write exactly once in the directory).  Non-trivial = recorded runs + gated rounds." % (
                     "120" if thorough else "30", nlines))
     rep.assumptions = ["TLC/SANY", "Go toolchain", "verif hooks on the buffer/event pools", "GC disabled while recording so that addresses identify objects",
                        "file and rolling sinks are checked by content only (their write(2) is not instrumented)"]
